@@ -20,10 +20,9 @@ git checkout -- . ; git clean -fdq -e seeded-out -e target
 echo "== demo without the change (expect pass)"; (CARGO_TARGET_DIR=$WT_TARGET sh seeded-out/run_demo.sh > $out/demo_without_change.txt 2>&1; echo "exit $?" | tee -a $out/demo_without_change.txt)
 grep -E "^test result|panicked|FAILED" $out/demo_without_change.txt | head -5
 git checkout -- . ; git clean -fdq -e seeded-out -e target; git apply seeded-out/patch.diff
-echo "== checks against /repo with the change applied"
-cd /repo && git apply $out/patch.diff || { echo "PATCH DOES NOT APPLY to /repo"; exit 3; }
+echo "== checks against the worktree with the change applied (VERIF_REPO mode: same harness, built against the copy; /repo untouched)"
+git -C $wt diff --quiet && { echo "PATCH NOT APPLIED in worktree"; exit 3; }
 for c in $prop "$@"; do
-  (cd /verif && ./check $c --tier quick > $out/check_$c.txt 2>&1; echo "check $c exit $?" | tee -a $out/check_$c.txt)
+  (cd /verif && VERIF_REPO=$wt VERIF_ALT_TARGET=/tmp/mut/target VERIF_ALT_OUT=/tmp/mut/out ./check $c --tier quick > $out/check_$c.txt 2>&1; echo "check $c exit $?" | tee -a $out/check_$c.txt)
   grep -E "VIOLATION|key:|MACHINERY" $out/check_$c.txt | head -6 | cut -c1-260
 done
-git -C /repo checkout -- . ; git -C /repo status --short | head -3
